@@ -167,7 +167,7 @@ def oracle(A, E, o):
 # generators
 # ---------------------------------------------------------------------------
 
-LINES = ['a', 'b', 'a b', ' a', 'a ', 'x1', 'x22', 'id=7 ok', 'id=42 ok', 'skip me', 'a x1', 'b x1', 'é', '']
+LINES = ['a', 'b', 'a b', ' a', 'a ', 'x1', 'x22', 'id=7 ok', 'id=42 ok', 'skip me', 'a x1', 'b x1', 'x2', 'id=8 ok', 'é', '']
 
 
 def drop_first(lines):
@@ -181,12 +181,16 @@ OPTION_SETS = [
     {'ignore_patterns': [r'x\d+$']}, {'ignore_patterns': [r'^id=\d+']},
     {'ignore_patterns': [r'\d+'], 'rstrip': True},
     {'remove_lines': ['skip']}, {'remove_lines': ['skip'], 'ignore_substrings': ['id=']},
+    {'remove_lines': ['skip'], 'ignore_patterns': [r'id=\d+']}, {'remove_lines': ['skip'], 'ignore_patterns': [r'x\d+$']},
     {'remove_lines': ['a']},
     {'preprocess': drop_first}, {'preprocess': drop_first, 'remove_lines': ['skip']},
     {'max_permutation_cases': 1}, {'max_permutation_cases': 2}, {'max_permutation_cases': 3},
     {'max_permutation_cases': 4},
     {'max_permutation_cases': 2, 'lstrip': True},
     {'max_permutation_cases': 2, 'ignore_patterns': [r'\d+']},
+    {'max_permutation_cases': 1, 'ignore_patterns': [r'\d+']},
+    {'max_permutation_cases': 2, 'ignore_substrings': ['id=']},
+    {'max_permutation_cases': 3, 'ignore_substrings': ['id='], 'ignore_patterns': [r'x\d']},
     {'remove_lines': ['skip'], 'ignore_patterns': [r'\d+'], 'lstrip': True, 'rstrip': True,
      'ignore_substrings': ['é'], 'max_permutation_cases': 2},
 ]
@@ -211,6 +215,32 @@ def variants(E, rnd, pool):
                 yield F
     if len(E) >= 3:
         yield E[1:] + E[:1]
+    # compound differences: an excusable (same-length, pattern / substring) difference together with
+    # real differences or a swap, in every relative order
+    sib = {'x1': 'x2', 'x2': 'x1', 'id=7 ok': 'id=8 ok', 'id=8 ok': 'id=7 ok'}
+    for i in range(len(E)):
+        if E[i] in sib:
+            F = list(E)
+            F[i] = sib[E[i]]
+            for j in range(len(E)):
+                for k in range(j + 1, len(E)):
+                    if i not in (j, k) and E[j] != E[k]:
+                        G = list(F)
+                        G[j], G[k] = G[k], G[j]
+                        yield G
+            for j in range(len(E)):
+                if j != i:
+                    G = list(F)
+                    G[j] = G[j] + '!'
+                    yield G
+                    # ... and a removable line present on one side only, at every position
+                    for p in range(len(G) + 1):
+                        yield G[:p] + ['skip me'] + G[p:]
+                    for k in range(len(E)):
+                        if k not in (i, j):
+                            H = list(G)
+                            H[k] = H[k] + '?'
+                            yield H
     # same distinct lines, different multiplicities (not a permutation)
     ds = sorted(set(E))
     if len(ds) >= 2 and len(E) >= 3:
@@ -378,7 +408,7 @@ def permutation_family():
 
 def gen_cases(tier, seed):
     rnd = random.Random(seed)
-    pool = LINES if tier != 'quick' else LINES[:12]
+    pool = LINES if tier != 'quick' else LINES[:14]
     max_len = 3
     cases = []
     bases = []
@@ -393,6 +423,14 @@ def gen_cases(tier, seed):
               3: OPTION_SETS.index({'max_permutation_cases': 3}),
               4: OPTION_SETS.index({'max_permutation_cases': 4})}[mpc]
         cases.append((A, E, oi))
+    for extra in (['a', 'x1', 'b'], ['x1', 'a', 'b'], ['a', 'b', 'x1'], ['id=7 ok', 'a', 'b', 'é'],
+                  ['a', 'id=7 ok', 'b'], ['a', 'b', 'a b', 'x1']):
+        vs = list(variants(extra, rnd, pool))
+        for A in vs:
+            for oi in range(len(OPTION_SETS)):
+                if 'max_permutation_cases' in OPTION_SETS[oi] or 'ignore_patterns' in OPTION_SETS[oi] \
+                        or 'ignore_substrings' in OPTION_SETS[oi] or oi == 0:
+                    cases.append((A, extra, oi))
     for E in bases:
         vs = list(variants(E, rnd, pool))
         if tier == 'quick' and len(vs) > 14:
